@@ -435,12 +435,57 @@ def obligations(tier):
             return dict(out=out, svd_calls=rec)
         add("decomposition._parafac2:initialize_decomposition", f"slices={nI},init=svd,svd=randomized_svd", p2_setup, p2i_svd, "any", dict(n_slices=nI, init="svd", svd="randomized_svd"),
             "the generator reaches the randomized SVD", extra_post=svd_threading_post, assumptions=p2_pre)
+    # PARAFAC2 sweep and line search: the projections are computed by an SVD per slice - with the randomized method each of them draws, so random_state must reach
+    # _compute_projections from the sweep, and from the line search the decomposition constructs
+    def p2s_setup(S):
+        K = atom("K")
+        return dict(_S=S, Xs=[S.input(f"X{i}", [atom(f"J{i}"), K]) for i in range(2)], R=R, K=K, w=S.input("w", [R]), A=S.input("A", [2, R]), Bm=S.input("B", [R, R]), Cm=S.input("Cm", [K, R]),
+                    P=[S.input(f"P{i}", [atom(f"J{i}"), R]) for i in range(2)], err=S.input("err", []))
+    def p2s_call(I, rs):
+        import tensorly.parafac2_tensor as p2t
+        from tensorly.cp_tensor import CPTensor
+        from .c03 import _noval
+        S = I["_S"]
+        rec = []
+        def proj(ts, fs_, svd, **kw):
+            rec.append(dict(kw))
+            return list(I["P"])
+        def inner(X, rank, init=None, **kw):
+            return CPTensor((None, list(init[1])))
+        def errf(*a, **k):
+            return I["err"]
+        def go():
+            cut = LoopCut(_p2.parafac2)
+            with stubbed(_p2, _compute_projections=proj, parafac=inner, _parafac2_reconstruction_error=errf, _validate_parafac2_tensor=p2t._validate_parafac2_tensor,
+                         initialize_decomposition=lambda *a, **k: (I["w"], [I["A"], I["Bm"], I["Cm"]], list(I["P"]))):
+                st = cut.prefix(list(I["Xs"]), I["R"] if S.name == "sym" else I["A"].shape[1], svd="randomized_svd", random_state=rs, linesearch=True, tol=1e-9)
+                st["factors"] = list(st["factors"])
+                st["rec_errors"] = [I["err"]]
+                ls = st["linesearch"]
+                cut.body(st, 1)                                  # a plain sweep
+                n_sweep = len(rec)
+                ls.line_step(8, list(I["Xs"]), [I["A"], I["Bm"], I["Cm"]], I["w"], [I["A"], I["Bm"], I["Cm"]], list(I["P"]), I["err"])   # the line search object the prefix built
+            return dict(svd_calls=rec, n_sweep=n_sweep, ls_has=getattr(ls, "random_state", "missing"))
+        return _noval(p2t, go)
+    def p2s_post(S, I, r):
+        out = svd_threading_post(S, I, r)[:-1]
+        out.append(("the sweep and the line search each compute projections", [r["res"]["n_sweep"] >= 1, len(r["res"]["svd_calls"]) > r["res"]["n_sweep"]], [True, True]))
+        return out
+    add("decomposition._parafac2:parafac2", "slices=2,svd=randomized_svd,sweep and line search", p2s_setup, p2s_call, "any", dict(n_slices=2, svd="randomized_svd", site="sweep + line search"),
+        "the generator reaches the randomized SVD", extra_post=p2s_post, assumptions=lambda I: [I["R"] <= I["K"]] + [I["R"] <= x.shape[0] for x in I["Xs"]])
+    def cpj_call(I, rs):
+        rec = []
+        with stubbed(_p2, svd_interface=rec_svd(I["_S"], rec)):
+            _p2._compute_projections(list(I["Xs"]), [I["A"], I["Bm"], I["Cm"]], "randomized_svd", random_state=rs)
+        return dict(svd_calls=rec)
+    add("decomposition._parafac2:_compute_projections", "slices=2,svd=randomized_svd", p2s_setup, cpj_call, "any", dict(n_slices=2, svd="randomized_svd"),
+        "the generator reaches the randomized SVD", extra_post=svd_threading_post, assumptions=lambda I: [I["R"] <= I["K"]] + [I["R"] <= x.shape[0] for x in I["Xs"]])
     # ====================================================================== decompositions: the generator is handed to the initialiser unchanged, sweeps and exits draw nothing
     # (the loop-cut call sites of C06 / C08 are re-run with random_state injected into the cut function; initialisers, samplers and inner solvers are contract stubs
     #  whose recorded arguments are inspected; their own bodies are the obligations above)
     import inspect
     from .. import iterative as IT
-    INIT_NAMES = ("initialize_cp", "initialize_tucker", "initialize_constrained_parafac", "initialize_decomposition", "random_tr", "sample_khatri_rao")
+    INIT_NAMES = ("initialize_cp", "initialize_tucker", "initialize_constrained_parafac", "initialize_decomposition", "random_tr", "sample_khatri_rao", "_compute_projections")
     def resolve(fn):
         mod, name = fn.split(":")
         obj = importlib.import_module(mod)
@@ -454,7 +499,7 @@ def obligations(tier):
     for mod in ("c06", "c08"):
         m = importlib.import_module(f"vt.props.{mod}")
         for ob in m.obligations(tier):
-            if type(ob) is not GOb or ob.raises is not None or "n_iter_max=0" in ob.name or "zero budget" in ob.name or "n_iter_max=" in ob.name or ":initialize_" in ob.function or ob.instance.get("order", 0) >= 4:
+            if type(ob) is not GOb or ob.raises is not None or ob.function.endswith(":_compute_projections") or "n_iter_max=0" in ob.name or "zero budget" in ob.name or "n_iter_max=" in ob.name or ":initialize_" in ob.function or ob.instance.get("order", 0) >= 4:
                 continue  # (whole-function zero-budget call sites are not loop cuts: random_state cannot be injected there)
             try:
                 f = resolve(ob.function)
